@@ -157,6 +157,138 @@ def roundtrip_field(cid, value):
 MISSING = object()
 
 
+# ------------------------------------------------------------------ integer sites reached through a parent (C12 contexts)
+class CtxCase:
+    """an integer FieldCase seen from a root class one to three references above it: root template with the int's
+    class placed at a property of the root (directly, as union alternative, as array element, as map value)"""
+
+    def __init__(self, cid, case, root_name, root_cls, template, path, label, through_union):
+        self.id, self.case, self.root_name, self.root_cls, self.template, self.path, self.label, self.through_union = cid, case, root_name, root_cls, template, path, label, through_union
+        self.hook = real_converter().get_structure_hook(root_cls)
+
+    @property
+    def site(self):
+        return "%s.%s reached as %s" % (self.case.name, self.case.wire, self.label)
+
+
+def _refs(t, wrap=()):
+    te = SPEC.expand(t) if t["kind"] == "reference" and t["name"] in SPEC.aliases else t
+    k = te["kind"]
+    if k == "reference":
+        yield (te["name"], wrap)
+    elif k == "or":
+        for a in te["items"]:
+            yield from _refs(a, wrap + ("or",))
+    elif k == "array":
+        yield from _refs(te["element"], wrap + ("arr",))
+    elif k == "map":
+        yield from _refs(te["value"], wrap + ("map",))
+
+
+def _wrap_value(v, wrap):
+    """value at the parent's key and the path from that key's value down to v"""
+    path = []
+    for w in reversed(wrap):
+        if w == "arr":
+            v = [v]
+        elif w == "map":
+            v = {"k": v}
+    for w in wrap:
+        if w == "arr":
+            path.append(0)
+        elif w == "map":
+            path.append("k")
+    return v, path
+
+
+_CTX = None
+
+
+def ctx_cases(max_depth=3):
+    """contexts of every directly integer-typed property: all parents one reference up; chains up to max_depth
+    references up are followed while the chain has not yet crossed a union (that is where hand-written hooks and
+    cattrs' disambiguation decide which class - and so which validators - see the value)"""
+    global _CTX
+    if _CTX is not None:
+        return _CTX
+    L = _lsp()
+    fc = field_cases()
+    ints = [c for c in fc.values() if c.kind == "int" and c.direct]
+    parents = {}  # class name -> [(parent name, wire, wrap)]
+    sc_all = classlemmas.spec_classes()
+    for name, sc in sc_all.items():
+        for p in sc["props"]:
+            for n, w in _refs(p["type"]):
+                if n in sc_all:
+                    parents.setdefault(n, []).append((name, p["name"], w))
+    out = collections.OrderedDict()
+    seen = set()
+
+    def chains(name, depth):
+        """yield lists of (parent, wire, wrap) from the innermost parent outwards"""
+        for par in parents.get(name, []):
+            yield [par]
+            if depth > 1 and "or" not in par[2]:
+                for rest in chains(par[0], depth - 1):
+                    yield [par] + rest
+
+    for c in ints:
+        for chain in chains(c.name, max_depth):
+            if len(chain) > 1 and not any("or" in w for (_, _, w) in chain):
+                continue  # longer chains only to reach a union
+            key = (c.id, tuple((a, b) for a, b, _ in chain))
+            if key in seen:
+                continue
+            seen.add(key)
+            try:
+                value = dict(c.template)
+                path = [c.wire]
+                for pname, wire, wrap in chain:
+                    wrapped, sub = _wrap_value(value, wrap)
+                    value = dict(classlemmas.SPEC_sample_for(_Case(pname), maximal=False))
+                    value[wire] = wrapped
+                    path = [wire] + sub + path
+                root = chain[-1][0]
+                cls = getattr(L, root, None)
+                if not (isinstance(cls, type) and attrs.has(cls)):
+                    continue
+                label = " <- ".join("%s.%s%s" % (a, b, "".join({"or": "|", "arr": "[]", "map": "{}"}[x] for x in w)) for a, b, w in chain)
+                cid = "x%d" % len(out)
+                cc = CtxCase(cid, c, root, cls, value, path, label, any("or" in w for (_, _, w) in chain))
+                # the context must be sound on a valid value before it is used
+                j = _ctx_json(cc, 1)
+                cc.hook(j, cls)
+                out[cid] = cc
+            except Exception as e:
+                PROBLEMS.append(("ctx-case", "%s via %s" % (c.site, chain), "%s: %s" % (type(e).__name__, str(e)[:120])))
+    _CTX = out
+    return out
+
+
+def _ctx_json(cc, value):
+    """copy of the root template with `value` at the path (only the containers on the path are copied)"""
+
+    def rec(node, i):
+        k = cc.path[i]
+        if isinstance(node, list):
+            node = list(node)
+        else:
+            node = dict(node)
+        node[k] = value if i == len(cc.path) - 1 else rec(node[k], i + 1)
+        return node
+
+    return rec(cc.template, 0)
+
+
+def ctx_accepts(xid, value):
+    cc = ctx_cases()[xid]
+    try:
+        cc.hook(_ctx_json(cc, value), cc.root_cls)
+    except Exception:
+        return False
+    return True
+
+
 # ------------------------------------------------------------------ annotation-level cases (enums at use sites)
 class AnnotCase:
     def __init__(self, cid, annotation, enum_name, shape, paths):
